@@ -112,7 +112,11 @@ func seed() int {
 }
 
 // runProperty loads the program and runs the rules of one property.
+// deepTier: the thorough tier widens the bounded analyses (more holes, longer rings).
+var deepTier bool
+
 func runProperty(def *PropertyDef, tier, repo, goarch string, overlay map[string][]byte) (c *Check, err error) {
+	deepTier = tier == "thorough"
 	c = NewCheck(def.ID, tier)
 	c.Level = def.Level
 	defer func() {
